@@ -274,7 +274,7 @@ def bfs(rec, hb, clsname, cls, depth, max_states, part, nparts):
 
 def random_histories(rec, hb, rng, classes, n_hist, pvl):
     # (one key has characters at its ends that str.strip() would remove)
-    K = ("a", "b", "c", "d", "\xa0e ")
+    K = ("a", "b", "c", "d", "\xa0e ", "")      # (also the empty string: a falsy key)
     col = pvl.collections
 
     def val():
@@ -284,7 +284,7 @@ def random_histories(rec, hb, rng, classes, n_hist, pvl):
         if r < 0.6:
             return rng.choice(("x", "", "a"))
         if r < 0.7:
-            return None
+            return rng.choice((None, False, True))
         if r < 0.8:
             return [1, "x"]
         if r < 0.9:
